@@ -84,11 +84,12 @@ fn check(t: &dyn Td, r: &Ref) -> Option<(String, String)> {
     if (m - mref).abs() > mtol || m.is_nan() {
         return Some(("C16/mean".into(), format!("mean() = {:e} but the weighted mean is {:e} (tolerance {:e})", m, mref, mtol)));
     }
+    // again after the compressing reads above (a merge must not move the extremes)
     if t.min() != r.min {
-        return Some(("C16/min".into(), format!("min() = {:e} but the smallest inserted value is {:e}", t.min(), r.min)));
+        return Some(("C16/min".into(), format!("min() = {:e} after a compressing read but the smallest inserted value is {:e}", t.min(), r.min)));
     }
     if t.max() != r.max {
-        return Some(("C16/max".into(), format!("max() = {:e} but the largest inserted value is {:e}", t.max(), r.max)));
+        return Some(("C16/max".into(), format!("max() = {:e} after a compressing read but the largest inserted value is {:e}", t.max(), r.max)));
     }
     None
 }
